@@ -998,3 +998,45 @@ mut("new_snapshot_pushed_at_the_oldest_end", ["C03", "C07"], "ORD-7", file="src/
 
 mut("read_sample_level_outside_first_file_guard", ["C10"], "PAIR-12", patch="read_sample_level_outside_first_file_guard.diff",
     note="the charged file is paired with the level of the last overlapping file: a trivial move then lists it at two levels")
+
+# ---- SRC-1
+mut("iterator_skips_last_level", ["C04", "C03"], "SRC-1", file="src/versioning/version.rs",
+    old="""        for level in 1..MAX_NUM_LEVELS {
+            let level_files = &self.files[level];
+            if level_files.is_empty() {
+                continue;
+            }
+
+            let file_list_iter = Box::new(FilesEntryIterator::new(""",
+    new="""        for level in 1..MAX_NUM_LEVELS - 1 {
+            let level_files = &self.files[level];
+            if level_files.is_empty() {
+                continue;
+            }
+
+            let file_list_iter = Box::new(FilesEntryIterator::new(""")
+mut("iterator_ignores_imm_while_flag_set", ["C04", "C06"], "SRC-1", file="src/db.rs",
+    old="""        if db_fields_guard.maybe_immutable_memtable.is_some() {
+            let immutable_memtable_iter = db_fields_guard""",
+    new="""        if db_fields_guard.maybe_immutable_memtable.is_some() && !self.has_immutable_memtable.load(Ordering::Acquire) {
+            let immutable_memtable_iter = db_fields_guard""")
+benign("iterator_imm_by_if_let", ["C04", "C03", "C06"], "src/db.rs",
+    old="""        if db_fields_guard.maybe_immutable_memtable.is_some() {
+            let immutable_memtable_iter = db_fields_guard
+                .maybe_immutable_memtable
+                .as_ref()
+                .unwrap()
+                .iter();
+            db_iterators.push(immutable_memtable_iter);
+        }""",
+    new="""        if let Some(immutable_memtable) = db_fields_guard.maybe_immutable_memtable.as_ref() {
+            db_iterators.push(immutable_memtable.iter());
+        }""")
+
+# ---- SRC-2
+mut("level0_candidates_oldest_first", ["C01", "C03"], "SRC-2", file="src/versioning/version.rs",
+    old="""        files[0].sort_by_key(|f| Reverse(f.file_number()));""",
+    new="""        files[0].sort_by_key(|f| f.file_number());""")
+benign("level0_candidates_sorted_by_cmp", ["C01", "C03"], "src/versioning/version.rs",
+    old="""        files[0].sort_by_key(|f| Reverse(f.file_number()));""",
+    new="""        files[0].sort_by(|a, b| b.file_number().cmp(&a.file_number()));""")
